@@ -72,3 +72,69 @@ Proof. exact padded_geometry. Qed.
 
 Goal True. idtac "THEOREM C03_halo_is_padding". Abort. Print Assumptions C03_halo_is_padding.
 Goal True. idtac "THEOREM C03_padded_request_geometry". Abort. Print Assumptions C03_padded_request_geometry.
+
+(* ------------------------------------------------------------------------------------------
+   "the vertical resistance (integral of dz/Kz)": the trapezoidal sum `resist` that C03_conc_sum
+   speaks about IS the integral up to an explicit second-order error (instance ROps over
+   Coquelicot's complex numbers; real nodes zs, real diffusivity function Kz with 1/Kz twice
+   differentiable, |(1/Kz)''| <= M2 on [z_0, z_m], layers 0 <= dz_i <= dmax):
+     | (p000 - q00 * resistance) - (p000 - q00 * int_{z_0}^{z_m} dz/Kz) |  <=  |q00| M2/12 (z_m - z_0) dmax^2,
+   it is exact when 1/Kz is piecewise linear between the nodes, and it converges on uniform
+   refinements.  (Proofs/Trapezoid.v; stdlib real axioms.) *)
+From Coq Require Import Reals.
+From Coquelicot Require Import Coquelicot.
+From BL Require Base.ROps Proofs.ModeProofs Proofs.Trapezoid.
+
+Theorem C03_resistance_is_integral :
+  forall (Kz f1 f2 : R -> R) (zs : list R) (m : nat) (M2 dmax : R) (p000 q00 : C),
+  (m < length zs)%nat ->
+  (forall i, (i < m)%nat -> (0 <= nth (S i) zs 0 - nth i zs 0 <= dmax)%R) ->
+  (forall z, (nth 0 zs 0 <= z <= nth m zs 0)%R -> is_derive (fun z => / Kz z)%R z (f1 z)) ->
+  (forall z, (nth 0 zs 0 <= z <= nth m zs 0)%R -> is_derive f1 z (f2 z)) ->
+  (forall z, (nth 0 zs 0 <= z <= nth m zs 0)%R -> (Rabs (f2 z) <= M2)%R) ->
+  (Cmod (Cminus (csub ROps.ROps p000 (cmul ROps.ROps q00
+                   (ModeProofs.resistance ROps.ROps (diffs ROps.ROps (map RtoC zs)) (map RtoC (map Kz zs)) m)))
+               (Cminus p000 (Cmult q00 (RtoC (RInt (fun z => / Kz z)%R (nth 0 zs 0%R) (nth m zs 0%R))))))
+   <= Cmod q00 * (M2 / 12 * (nth m zs 0 - nth 0 zs 0) * dmax ^ 2))%R.
+Proof. exact Trapezoid.mean_conc_vs_integral. Qed.
+
+Theorem C03_resistance_exact_piecewise_linear :
+  forall (f : R -> R) (zs Kzs : list R) (m : nat),
+  (m < length zs)%nat -> (m < length Kzs)%nat ->
+  (forall i, (i < m)%nat -> (nth i zs 0 <= nth (S i) zs 0)%R) ->
+  (forall i, (i <= m)%nat -> f (nth i zs 0%R) = (/ nth i Kzs 0)%R) ->
+  (forall i, (i < m)%nat -> exists s c, forall x,
+       (nth i zs 0 <= x <= nth (S i) zs 0)%R -> f x = (s * x + c)%R) ->
+  ex_RInt f (nth 0 zs 0%R) (nth m zs 0%R) /\
+  ModeProofs.resistance ROps.ROps (diffs ROps.ROps (map RtoC zs)) (map RtoC Kzs) m
+  = RtoC (RInt f (nth 0 zs 0%R) (nth m zs 0%R)).
+Proof.
+  intros f zs Kzs m H1 H2 H3 H4 H5.
+  destruct (Trapezoid.trapezoid_exact_piecewise_linear f zs Kzs m H1 H2 H3 H4 H5) as [Hex Heq].
+  split; [exact Hex|]. rewrite Trapezoid.diffs_ROps, Trapezoid.resistance_ROps, Heq. reflexivity.
+Qed.
+
+Theorem C03_resistance_converges :
+  forall (Kz f1 f2 : R -> R) (a b M2 : R),
+  (a <= b)%R ->
+  (forall z, (a <= z <= b)%R -> is_derive (fun z => / Kz z)%R z (f1 z)) ->
+  (forall z, (a <= z <= b)%R -> is_derive f1 z (f2 z)) ->
+  (forall z, (a <= z <= b)%R -> (Rabs (f2 z) <= M2)%R) ->
+  is_lim_seq (fun n => Trapezoid.Rresistance (Trapezoid.Rdiffs (Trapezoid.unif a b (S n)))
+                                             (map Kz (Trapezoid.unif a b (S n))) (S n))
+             (RInt (fun z => / Kz z)%R a b).
+Proof. exact Trapezoid.trapezoid_converges. Qed.
+
+(* non-vacuity: the neutral surface-layer diffusivity Kz = k z (resistance ln(z_m/z_0)/k) *)
+Theorem C03_resistance_neutral_example : forall k : R, (0 < k)%R ->
+  forall (zs : list R) (m : nat) (dmax : R),
+  (m < length zs)%nat -> (0 < nth 0 zs 0)%R ->
+  (forall i, (i < m)%nat -> (0 <= nth (S i) zs 0 - nth i zs 0 <= dmax)%R) ->
+  (Rabs (Trapezoid.Rresistance (Trapezoid.Rdiffs zs) (map (fun z => k * z) zs) m - ln (nth m zs 0 / nth 0 zs 0) / k)
+   <= (2 / (k * (nth 0 zs 0) ^ 3)) / 12 * (nth m zs 0 - nth 0 zs 0) * dmax ^ 2)%R.
+Proof. exact Trapezoid.neutral_resistance_bound. Qed.
+
+Goal True. idtac "THEOREM C03_resistance_is_integral". Abort. Print Assumptions C03_resistance_is_integral.
+Goal True. idtac "THEOREM C03_resistance_exact_piecewise_linear". Abort. Print Assumptions C03_resistance_exact_piecewise_linear.
+Goal True. idtac "THEOREM C03_resistance_converges". Abort. Print Assumptions C03_resistance_converges.
+Goal True. idtac "THEOREM C03_resistance_neutral_example". Abort. Print Assumptions C03_resistance_neutral_example.
